@@ -102,6 +102,25 @@ CHECKS = {
         "DESIGN.md 6 C11",
         TRUST,
     ),
+    "C06": (
+        "TLC exhaustive check of Interp.tla (sub-cell marker lattice, nondeterministic floor on cell centres, tensor weights from "
+        "an exact integer table; partition of unity, non-negativity, support, affine reproduction for all positions and both "
+        "floor outcomes; ASSUME rejects tables violating the 1-D laws) + the real communicator kernels driven over the same "
+        "lattice +-1 ulp (index in the allowed set, weights vs documented closed forms, laws on the code's own weights)",
+        "Model checking of the D-dimensional consequences of the 1-D laws incl. the rounding case + conformance of the numba "
+        "kernels at float sharpness on the lattice the model enumerates.",
+        "DESIGN.md 6 C06",
+        TRUST,
+    ),
+    "C07": (
+        "TLC exhaustive check of Interp.tla (accumulating Spread action; adjoint identity, force and torque conservation over "
+        "all two-marker lattice configurations incl. identical supports and repeated calls; assign-variant refuted) + replay of "
+        "emitted behaviours into the real spreading kernels (prediction = sum of closed-form kernel samples) + identities "
+        "evaluated on the code's own outputs for random/clustered/duplicated marker sets",
+        "Model checking of the bilinear identities on a basis + conformance and direct evaluation on the code.",
+        "DESIGN.md 6 C07",
+        TRUST,
+    ),
 }
 
 NOT_YET = "check not built yet in this round (see DESIGN.md 11 for the build order)"
